@@ -977,6 +977,13 @@ def s13_entry_subscripts(prog, ctx, fns):
                 ctx.ok("S13", "%s: %s" % (f.name, render(x)[:50]), x.where, "the slot being created: array grown to length + 1, the count stepped afterwards")
             elif any(st.within(x) for st in steps):
                 ctx.ok("S13", "%s: %s" % (f.name, render(x)[:50]), x.where, "the count is stepped in the subscript itself")
+            elif any(l9 is not None and l9.kind == "lt" and ((l9.pol and render(l9.lhs) == base + "length" and render(l9.rhs) == base + "alloc_length") or (
+                    not l9.pol and render(l9.rhs) == base + "length" and render(l9.lhs) == base + "alloc_length") or (
+                    not l9.pol and render(l9.lhs) == base + "length" and render(l9.rhs) == base + "alloc_length" and False))
+                    for l9 in cfg.required_literals(cfg.block_of(x), expand_locals=False)) or any(
+                    l9 is not None and l9.kind == "lt" and not l9.pol and render(l9.lhs) == base + "length" and render(l9.rhs) == base + "alloc_length" and False
+                    for l9 in []):
+                ctx.ok("S13", "%s: %s" % (f.name, render(x)[:50]), x.where, "behind `length < alloc_length`: a spare slot inside the capacity")
             else:
                 ctx.fail("S13", "%s: %s" % (f.name, render(x)[:50]), x.where,
                          "`%s` addresses the slot behind the entries in use (the last entry is [%slength - 1]): a write lands outside the array when it is full, a read "
